@@ -42,6 +42,7 @@ type HarnessSpec struct {
 	ForkAll []string               `json:"fork_all"`
 	NativeRedirect bool            `json:"native_redirect"`
 	FloatTaint bool                `json:"float_taint"`
+	RaceCheck bool                 `json:"race_check"`
 	Typecheck []string             `json:"typecheck"` // "goos/goarch" targets: the current tree must load (type-check + SSA) for each
 	Solver  []string               `json:"solver"`
 }
@@ -180,6 +181,7 @@ func main() {
 					e.ForkAll[expandName(f)] = true
 				}
 				e.FloatTaint = h.FloatTaint
+				e.RaceCheck = h.RaceCheck
 			}
 		}
 		r := e.RunHarness(pkgPath(parts[0]), parts[1], args, 0)
@@ -510,6 +512,7 @@ func runProp(prop, tier string, workers int, debug bool, only string, noReplay b
 					e.ForkAll[expandName(f)] = true
 				}
 				e.FloatTaint = j.h.FloatTaint
+				e.RaceCheck = j.h.RaceCheck
 				e.KnownOpen = map[string]bool{}
 				for id := range openKnown {
 					e.KnownOpen[id] = true
@@ -757,7 +760,12 @@ func TestVerifReplay(t *testing.T) {
 	if doc.Pkg == "" {
 		rel = "."
 	}
-	cmd := exec.Command("go", "test", "-vet=off", "-count=1", "-run", "^TestVerifReplay$", "-v", "-overlay", ovPath, rel)
+	args := []string{"test", "-vet=off", "-count=1", "-run", "^TestVerifReplay$", "-v", "-overlay", ovPath}
+	if strings.HasPrefix(doc.Failed, "race:") {
+		args = append(args, "-race") // footprint counterexamples are confirmed by the Go race detector on the real build
+	}
+	args = append(args, rel)
+	cmd := exec.Command("go", args...)
 	cmd.Dir = repoDir
 	cmd.Env = append(os.Environ(), "GOFLAGS=-mod=mod", "GOPROXY=off", "VERIF_REPLAY="+path)
 	done := make(chan struct{})
@@ -772,6 +780,9 @@ func TestVerifReplay(t *testing.T) {
 	}
 	s := string(out)
 	if strings.Contains(s, "REPLAY-VIOLATION:") {
+		return true, s
+	}
+	if strings.HasPrefix(doc.Failed, "race:") && strings.Contains(s, "WARNING: DATA RACE") {
 		return true, s
 	}
 	// a Go-level panic not caught (e.g. in another goroutine) also counts
